@@ -304,6 +304,11 @@ impl Network for ChoiceNet {
                     self.rec.0.lock().unwrap().dgrams.push(d);
                     let genuine = packet.payload.clone();
                     let mut forgeries: Vec<Vec<u8>> = Vec::new();
+                    // a datagram that coalesces several QUIC packets is not one authenticated unit: a
+                    // mutation that leaves one of its packets intact merely replays that genuine packet
+                    // early.  Mutations / truncations / splices are therefore only made of single-packet
+                    // datagrams; coalesced ones get the garbage variant.
+                    let kind = if crate::wire::datagram_packet_kinds(&genuine).len() > 1 { 2 } else { kind };
                     if sh.forge_enabled {
                         match kind {
                             0 => {
